@@ -57,6 +57,11 @@ def predefined : GEnv :=
 
 def GEnv.find (g : GEnv) (n : List Char) : Option GEntry := List.find? (fun e => e.name == n) g
 
+/-- An array type written in a parameter or variable declaration is a new type, different from every
+    declared type and from the types written in other declarations: its identity is the declaring
+    procedure together with the declared name (no identifier contains a blank). -/
+def anonId (procName varName : List Char) : List Char := procName ++ ' ' :: varName
+
 /-- Resolve a type expression; `locals` shadow global names (a variable is not a type). -/
 def resolveType (g : GEnv) (locals : List VarInfo) (creator : List Char) : TypeExpr → Option Ty
   | .named id =>
@@ -94,7 +99,7 @@ def declare (g : GEnv) : List (Ref GlobalDecl) → Option GEnv
         let params : Option (List VarInfo) := pd.params.foldl (fun acc p =>
           match acc, p.val with
           | some vs, .valid _ isRef (some pn) (some te) _ =>
-            match resolveType g [] pn.value te.val with
+            match resolveType g [] (anonId n.value pn.value) te.val with
             | some t =>
               let isArr := match t with
                 | .arr .. => true
@@ -109,7 +114,7 @@ def declare (g : GEnv) : List (Ref GlobalDecl) → Option GEnv
           let locals : Option (List VarInfo) := pd.vars.foldl (fun acc v =>
             match acc, v.val with
             | some vs, .valid _ (some vn) (some te) _ =>
-              match resolveType g (ps ++ vs) vn.value te.val with
+              match resolveType g (ps ++ vs) (anonId n.value vn.value) te.val with
               | some t => if (ps ++ vs).any (fun x => x.name == vn.value) then none else some (vs ++ [⟨vn.value, t, false⟩])
               | none => none
             | _, _ => none) (some [])
